@@ -129,13 +129,14 @@ static int vf_state_insert(uint64_t fp, int remaining, int* covered) {
  * operations, paths, replay files
  * ============================================================================================== */
 typedef struct vf_op_s { int code; long a; long b; } vf_op_t;
-#define VF_MAX_DEPTH 64
+#define VF_MAX_DEPTH 2048
 static vf_op_t vf_path[VF_MAX_DEPTH];
 static int     vf_depth;
 static char    vf_cfg[256];          /* configuration tag (profile / start state / options) */
 
 /* harness-provided */
 static void vf_op_str(vf_op_t op, char* buf, size_t n);
+static void (*vf_replay_extra)(FILE* f);   /* optional: extra lines for replay files (schedule explorer: conflict set) */
 
 static void vf_path_str(char* buf, size_t n) {
   size_t at = 0; buf[0] = 0;
@@ -171,6 +172,7 @@ static void vf_violation(const char* key, const char* fmt, ...) {
 #endif
               VF_VARIANT, key, msg, vf_cfg, vf_depth);
       { extern char** environ; for (char** e = environ; e && *e; e++) if (strncmp(*e, "MIMALLOC_", 9) == 0 || (strncmp(*e, "VF_", 3) == 0 && strncmp(*e, "VF_NO_REEXEC", 12) != 0)) fprintf(f, "env %s\n", *e); }
+      if (vf_replay_extra) vf_replay_extra(f);
       for (int i = 0; i < vf_depth; i++) {
         char one[64]; vf_op_str(vf_path[i], one, sizeof(one));
         fprintf(f, "op %d %ld %ld # %s\n", vf_path[i].code, vf_path[i].a, vf_path[i].b, one);
@@ -217,8 +219,8 @@ static int      vf_nlive;
 
 static inline uint64_t vf_mix(uint64_t x) { x += 0x9E3779B97F4A7C15ULL; x = (x ^ (x >> 30)) * 0xBF58476D1CE4E5B9ULL; x = (x ^ (x >> 27)) * 0x94D049BB133111EBULL; return x ^ (x >> 31); }
 
-#define VF_BIG (1024 * 1024)
-/* Pattern: word j (bytes 8j..8j+7) of a block is mix(seed + j).  Blocks up to 1 MiB are written and
+#define VF_BIG (128 * 1024)
+/* Pattern: word j (bytes 8j..8j+7) of a block is mix(seed + j).  Blocks up to 128 KiB are written and
  * checked densely.  Bigger blocks use the index set I(n) = { j < 512 } u { j = 512k } u { last 512 words }
  * (first 4 KiB, one word per 4 KiB -- every OS page is touched --, last 4 KiB).  `limit` restricts a check
  * to the first `limit` bytes (used for the preserved prefix after a realloc, where the layout is the OLD size). */
